@@ -318,26 +318,34 @@ def atom(n):
     return n if n[0] in ("num", "chr", "id", "par") else ("par", n)
 
 
-def violates(text, cbi_eval):
-    """True if cexpr defines the value and CBI's observable result differs."""
+def violates(text, cbi_eval, signature=None):
+    """True if cexpr defines the value and CBI's observable result differs (optionally: in the same way)."""
     try:
         t = cexpr.truth(text, {})
     except Exception:
         return False
     st, val = cbi_eval(text, {})
-    return st == "exc" or val != t
+    if not (st == "exc" or val != t):
+        return False
+    return signature is None or failure_signature(st, val) == signature
+
+
+def failure_signature(st, val):
+    return ("exception", str(val).split(":")[0]) if st == "exc" else ("wrong-truth",)
 
 
 def shrink(expr, macros, cbi_eval, budget=250):
     """Greedy reduction of a violating expression (macros inlined first)."""
     try:
+        sig = failure_signature(*cbi_eval(expr, macros))
         toks = cexpr.expand(expr, macros or {})
         text = " ".join(s for _, s in toks)
-        if not violates(text, cbi_eval):
+        if not violates(text, cbi_eval, sig):
             return expr, macros
         ast = cexpr.Parser(cexpr.tokenize(text)).parse()
     except Exception:
         return expr, macros
+
     changed = True
     while changed and budget > 0:
         changed = False
@@ -388,7 +396,7 @@ def shrink(expr, macros, cbi_eval, budget=250):
                 except Exception:
                     continue
                 budget -= 1
-                if simpler and violates(txt, cbi_eval):
+                if simpler and violates(txt, cbi_eval, sig):
                     ast = new
                     changed = True
                     break
@@ -397,7 +405,7 @@ def shrink(expr, macros, cbi_eval, budget=250):
             if changed or budget <= 0:
                 break
     # strip redundant outer parens
-    while ast[0] == "par" and violates(unparse(ast[1]), cbi_eval):
+    while ast[0] == "par" and violates(unparse(ast[1]), cbi_eval, sig):
         ast = ast[1]
     return unparse(ast), {}
 
